@@ -111,6 +111,13 @@ def r2_shared_state(rule, root=None):
                     tls.append((p, it["ln"]))
 
         rec(d["items"], False)
+        # ... and inside function bodies (a `thread_local!` can be declared next to its only use)
+        for f_ in d["_fns"]:
+            if f_["_test"] or f_.get("body") is None:
+                continue
+            for m_ in A.find(f_["body"], "Macro"):
+                if m_.get("name") == "thread_local":
+                    tls.append((p, m_["ln"]))
     vetted = {
         ("fidget-jit/src/lib.rs", "Send", "JitTracingFn"), ("fidget-jit/src/lib.rs", "Sync", "JitTracingFn"),
         ("fidget-jit/src/lib.rs", "Send", "JitBulkFn"), ("fidget-jit/src/lib.rs", "Sync", "JitBulkFn"),
